@@ -27,18 +27,18 @@ section Sampling
 variable {α : Type} [Field α] [LinearOrder α] [IsStrictOrderedRing α]
 
 /-- Every sampled delay is non-negative, whatever the raw sample is. -/
-theorem sample_nonneg (raw : α) : 0 ≤ sample_clip raw := by
-  simp only [sample_clip, Nat.cast_zero]
+theorem sample_nonneg (raw : α) : 0 ≤ delay_clip raw := by
+  simp only [delay_clip, Nat.cast_zero]
   exact le_max_right _ _
 
 /-- The clip changes nothing on non-negative raw samples … -/
-theorem sample_clip_of_nonneg (raw : α) (h : 0 ≤ raw) : sample_clip raw = raw := by
-  simp only [sample_clip, Nat.cast_zero]
+theorem sample_clip_of_nonneg (raw : α) (h : 0 ≤ raw) : delay_clip raw = raw := by
+  simp only [delay_clip, Nat.cast_zero]
   exact max_eq_left h
 
 /-- … and maps negative raw samples to exactly zero. -/
-theorem sample_clip_of_nonpos (raw : α) (h : raw ≤ 0) : sample_clip raw = 0 := by
-  simp only [sample_clip, Nat.cast_zero]
+theorem sample_clip_of_nonpos (raw : α) (h : raw ≤ 0) : delay_clip raw = 0 := by
+  simp only [delay_clip, Nat.cast_zero]
   exact max_eq_right h
 
 variable {κ : Type}
@@ -119,7 +119,7 @@ theorem seeds_pairwise_distinct (split : κ → Nat → Nat → κ) (r : κ → 
 of (initial rng state, shapes). -/
 theorem sampleSeq_spec (split : κ → Nat → Nat → κ) (draw : κ → Nat → List α) (k : κ) (ns : List Nat) :
     sampleSeq split draw k ns =
-      List.zipWith (fun s n => (draw s n).map sample_clip) (seedsUsed split k ns.length) ns := by
+      List.zipWith (fun s n => (draw s n).map delay_clip) (seedsUsed split k ns.length) ns := by
   induction ns generalizing k with
   | nil => rfl
   | cons n ns ih =>
@@ -231,8 +231,9 @@ theorem grid_gt_iff (c p : α) : grid_gt c p = true ↔ p < c := by
   simp [grid_gt]
 
 /-- Bracketing ("within grid resolution"): if some grid point has `cdf > p`, the returned index is the FIRST such
-point: `cdf[i] > p` and `cdf[j] ≤ p` for every earlier grid point. No monotonicity of the CDF is needed. -/
-theorem grid_quantile_brackets (cdf : List α) (p : α) (h : ∃ c ∈ cdf, p < c) :
+point (`_partial`: the hypothesis "some grid point exceeds `p`" is NOT implied by the source's own `grid_check`, which
+only gives `p ≤ max cdf`; see `grid_index_no_exceed` and `grid_check_admits_no_exceed_witness` for the missing case): `cdf[i] > p` and `cdf[j] ≤ p` for every earlier grid point. No monotonicity of the CDF is needed. -/
+theorem grid_quantile_brackets_partial (cdf : List α) (p : α) (h : ∃ c ∈ cdf, p < c) :
     ∃ hi : gridIndex cdf p < cdf.length, p < cdf[gridIndex cdf p] ∧
       ∀ j (hj : j < gridIndex cdf p), cdf[j]'(by omega) ≤ p := by
   obtain ⟨c, hc, hpc⟩ := h
@@ -264,10 +265,10 @@ theorem grid_quantile_brackets (cdf : List α) (p : α) (h : ∃ c ∈ cdf, p < 
 
 /-- For a non-decreasing CDF grid the returned index separates the grid exactly:
 `cdf[j] > p ↔ i ≤ j` — the quantile is the grid point right after the last one with `cdf ≤ p`. -/
-theorem grid_quantile_separates (cdf : List α) (p : α) (h : ∃ c ∈ cdf, p < c)
+theorem grid_quantile_separates_partial (cdf : List α) (p : α) (h : ∃ c ∈ cdf, p < c)
     (hmono : ∀ i j (hi : i < cdf.length) (hj : j < cdf.length), i ≤ j → cdf[i] ≤ cdf[j])
     (j : Nat) (hj : j < cdf.length) : p < cdf[j] ↔ gridIndex cdf p ≤ j := by
-  obtain ⟨hi, h1, h2⟩ := grid_quantile_brackets cdf p h
+  obtain ⟨hi, h1, h2⟩ := grid_quantile_brackets_partial cdf p h
   constructor
   · intro hp
     by_contra hcon
@@ -276,28 +277,28 @@ theorem grid_quantile_separates (cdf : List α) (p : α) (h : ∃ c ∈ cdf, p <
     exact lt_of_lt_of_le h1 (hmono _ _ hi hj hle)
 
 /-- The grid index (hence the grid quantile) is non-decreasing in the probability level. -/
-theorem grid_index_mono (cdf : List α) (p p' : α) (hpp : p ≤ p') (h' : ∃ c ∈ cdf, p' < c) :
+theorem grid_index_mono_partial (cdf : List α) (p p' : α) (hpp : p ≤ p') (h' : ∃ c ∈ cdf, p' < c) :
     gridIndex cdf p ≤ gridIndex cdf p' := by
   have h : ∃ c ∈ cdf, p < c := by
     obtain ⟨c, hc, hpc⟩ := h'
     exact ⟨c, hc, lt_of_le_of_lt hpp hpc⟩
-  obtain ⟨_, _, h2⟩ := grid_quantile_brackets cdf p h
-  obtain ⟨_, h1', _⟩ := grid_quantile_brackets cdf p' h'
+  obtain ⟨_, _, h2⟩ := grid_quantile_brackets_partial cdf p h
+  obtain ⟨_, h1', _⟩ := grid_quantile_brackets_partial cdf p' h'
   by_contra hcon
   have := h2 (gridIndex cdf p') (by omega)
   exact absurd (lt_of_le_of_lt hpp h1') (not_lt.mpr this)
 
 /-- Monotone quantile on an increasing grid. -/
-theorem grid_quantile_mono (grid cdf : List α) (p p' : α) (hlen : grid.length = cdf.length)
+theorem grid_quantile_mono_partial (grid cdf : List α) (p p' : α) (hlen : grid.length = cdf.length)
     (hgrid : ∀ i j (hi : i < grid.length) (hj : j < grid.length), i ≤ j → grid[i] ≤ grid[j])
     (hpp : p ≤ p') (h' : ∃ c ∈ cdf, p' < c) :
     ∃ x x', gridQuantile grid cdf p = some x ∧ gridQuantile grid cdf p' = some x' ∧ x ≤ x' := by
   have h : ∃ c ∈ cdf, p < c := by
     obtain ⟨c, hc, hpc⟩ := h'
     exact ⟨c, hc, lt_of_le_of_lt hpp hpc⟩
-  obtain ⟨hi, _, _⟩ := grid_quantile_brackets cdf p h
-  obtain ⟨hi', _, _⟩ := grid_quantile_brackets cdf p' h'
-  have hle := grid_index_mono cdf p p' hpp h'
+  obtain ⟨hi, _, _⟩ := grid_quantile_brackets_partial cdf p h
+  obtain ⟨hi', _, _⟩ := grid_quantile_brackets_partial cdf p' h'
+  have hle := grid_index_mono_partial cdf p p' hpp h'
   refine ⟨grid[gridIndex cdf p]'(by omega), grid[gridIndex cdf p']'(by omega), ?_, ?_, ?_⟩
   · simp [gridQuantile, List.getElem?_eq_getElem (show gridIndex cdf p < grid.length by omega)]
   · simp [gridQuantile, List.getElem?_eq_getElem (show gridIndex cdf p' < grid.length by omega)]
@@ -525,8 +526,9 @@ theorem sum_map_div (ws : List α) (s : α) : (ws.map fun w => w / s).sum = ws.s
   | nil => simp
   | cons w ws ih => simp [ih, add_div]
 
-/-- `normalize_weights` returns weights that sum to one (whenever the input does not sum to zero). -/
-theorem normalize_weights_sum_one (ws : List α) (h : ws.sum ≠ 0) : (gmm_normalize_weights ws).sum = 1 := by
+/-- `normalize_weights` returns weights that sum to one whenever the input does not sum to zero (`_partial`: see
+`normalize_zero_witness`; the estimator only calls it on vectors with positive sum — `estimator_mixture_weights`). -/
+theorem normalize_weights_sum_one_partial (ws : List α) (h : ws.sum ≠ 0) : (gmm_normalize_weights ws).sum = 1 := by
   rw [normalize_eq, sum_map_div, div_self h]
 
 /-- … and keeps them non-negative. -/
@@ -557,7 +559,7 @@ theorem init_weights_proper (exp : α → α) (hexp : ∀ x, 0 < exp x) (log_w :
     intro w hw; obtain ⟨x, _, rfl⟩ := List.mem_map.mp hw; exact hexp x
   have hs : 0 < (log_w.map exp).sum := sum_pos_of_pos _ (by simpa using hne) hpos
   simp only [initWeights, gmm_w_init]
-  refine ⟨normalize_weights_sum_one _ (ne_of_gt hs), ?_⟩
+  refine ⟨normalize_weights_sum_one_partial _ (ne_of_gt hs), ?_⟩
   rw [normalize_eq]
   intro w hw
   obtain ⟨v, hv, rfl⟩ := List.mem_map.mp hw
@@ -614,7 +616,19 @@ theorem estimator_weights_sum_one (pct : α) (hp : 0 ≤ pct) (ws : List α) (hs
     exact pruneGo_mass pct hp ws 0 (by rw [zero_add]; exact hsum) (Or.inl rfl)
   have hnn : ∀ w ∈ prune pct ws, 0 ≤ w := fun w h => hw w (pruneGo_subset pct ws _ w h)
   simp only [finalWeights, gmm_w_final]
-  exact ⟨normalize_weights_sum_one _ (ne_of_gt hmass), normalize_weights_nonneg _ hnn⟩
+  exact ⟨normalize_weights_sum_one_partial _ (ne_of_gt hmass), normalize_weights_nonneg _ hnn⟩
+
+/-- **Full statement for the exported mixture**: for every parameter vector `log_w` (non-empty), every positive `exp`,
+every ordering `ws` of the initial weights (the `argsort`) and every `percentile ≥ 0`, the weights handed to
+`distrax.Categorical` sum to one and are non-negative. -/
+theorem estimator_mixture_weights (exp : α → α) (hexp : ∀ x, 0 < exp x) (log_w : List α) (hne : log_w ≠ [])
+    (ws : List α) (hperm : ws.Perm (initWeights exp log_w)) (pct : α) (hp : 0 ≤ pct) :
+    (finalWeights pct ws).sum = 1 ∧ ∀ w ∈ finalWeights pct ws, 0 ≤ w := by
+  obtain ⟨hs, hpos⟩ := init_weights_proper exp hexp log_w hne
+  apply estimator_weights_sum_one pct hp ws
+  · rw [hperm.sum_eq, hs]
+  · intro w hw
+    exact (hpos w (hperm.mem_iff.mp hw)).le
 
 /-- At least one component survives. -/
 theorem estimator_keeps_a_component (pct : α) (hp : 0 ≤ pct) (ws : List α) (hsum : ws.sum = 1) :
@@ -695,6 +709,22 @@ theorem rescale_scale_pos (ls std : ℝ) (hstd : 0 < std) :
   simp only [gmm_rescale_log_scale]
   rw [Real.exp_add, Real.exp_log hstd]
   exact ⟨rfl, mul_pos (Real.exp_pos _) hstd⟩
+
+/-- **Positive scales whenever the mixture branch is taken**: if the determinism test (with a positive threshold) says
+"not deterministic", the spread is at least the threshold, hence positive, and every exported scale is
+`exp(log_s)·std > 0`. (In the model the spread tested and the spread used for rescaling are the same number; in rex
+they are computed twice — numpy float32 `self.data.std()` and `jnp.std(data)` — see notes/C15.md.) -/
+theorem estimator_scales_pos_of_not_deterministic (ls std threshold mean : ℝ) (hth : 0 < threshold)
+    (hnd : gmm_is_deterministic std threshold mean = false) :
+    Real.exp (gmm_rescale_log_scale Real.log ls std) = Real.exp ls * std ∧
+      0 < Real.exp (gmm_rescale_log_scale Real.log ls std) := by
+  have hstd : 0 < std := by
+    by_contra hcon
+    have : gmm_is_deterministic std threshold mean = true := by
+      simp [gmm_is_deterministic, lt_of_le_of_lt (not_lt.mp hcon) hth]
+    rw [this] at hnd
+    cases hnd
+  exact rescale_scale_pos ls std hstd
 
 /-- Every scale of the exported mixture is positive. -/
 theorem estimator_scales_pos (log_s : List ℝ) : ∀ s ∈ gmm_scales Real.exp log_s, 0 < s := by
